@@ -271,6 +271,9 @@ def run(prop, tier):
                     continue
                 if census.get(f"{k}/{c}", 0) == 0:
                     missing.append(f"{k}/{c}")
+    never = [a for a in ("StartEnd", "HandOver", "PickOpen", "PickPartner", "PickListed", "Reserve", "CapOpen", "CapEnd", "Draw") if mc_cov.get(a, 0) == 0]
+    if never and not v.violations:
+        raise MachineryError(f"vacuity guard: actions of GenerateMC never taken in the model-checking runs: {never}")
     if missing and not v.violations:
         raise MachineryError(f"vacuity guard: decision kinds / law classes never exercised in this run: {missing}")
 
